@@ -40,7 +40,11 @@ RULE = ("a case is one operation of a generated call history over a pool of 6-8 
         "name and absent, every simple font type, every predefined CMap; per document: page 0 ends with unpainted path "
         "segments / unbalanced q / changed line width / dangling operands, later pages begin with a stray Q and painted "
         "shapes, use font and XObject names only the previous page defines, show text before any Tf; observables "
-        "include shapes (LTRect/LTLine/LTCurve with points, width, colours, original path); operations: extract_text / extract_pages / "
+        "include shapes (LTRect/LTLine/LTCurve with points, width, colours, original path); every pool holds >= 2 "
+        "pairs of composite fonts of ONE character collection in horizontal and vertical writing (Identity-H/V and "
+        "predefined -H/-V CMaps) whose strings contain codes mapped differently by the two unicode tables; between the "
+        "pools a 'bulk' document (70 000 distinct names, 70 000 distinct unknown operators, 400 content streams, 150 "
+        "fonts) is extracted, ordinary documents before and after it; operations: extract_text / extract_pages / "
         "extract_text_to_fp(text,xml,html,tag) / open-next-close of interleaved page iterators (public generator "
         "and an introspectable pipeline) / page-at-a-time / CMapParser usecmap, each with caching on or off, page "
         "subsets and 4 LAParams variants; distinct = distinct (document bytes, operation, options, position in "
@@ -86,6 +90,7 @@ STATEMENT_STATUS: Dict[str, str] = {
     "C12_interp_reset": "proved: whatever the interpreter was left with by the previous page (unpainted path, unbalanced q, line width, dangling operands), the next page's result is the fresh page",
     "C12_interp_left_independent": "proved: what a page leaves behind does not depend on what it found",
     "curpath_leak_cex": "proved counter-example: init_state without the reset of the current path leaks a shape into the next page",
+    "umap_mode_cex": "proved counter-example: a unicode-map cache keyed by the collection name that holds only the table of the writing mode asked for first gives a later font of the other mode the wrong table (the model's entry holds both tables)",
     "C12_cmap_copy": "proved: extending a private CMap built with usecmap leaves the shared CMap = fresh load",
     "nocopy_cex": "proved counter-example: get_encoding without the copy leaks /Differences into later fonts",
     "shared_cache_cex": "proved counter-example: a memo table answered under another document's fresh function returns the other document's value (font cache keyed by name / manager shared across documents)",
@@ -370,6 +375,62 @@ def _p(x) -> str:
     return hashlib.blake2b(pickle.dumps(x, protocol=4), digest_size=8).hexdigest()
 
 
+def cache_value_view(v, depth: int = 0) -> Any:
+    """Picklable view of whatever a cache holds (one map, a list of maps, ...): the mapping tables and
+    attributes of map objects, containers recursively.  Must not assume the shape of the entry: a
+    change of the cache layout is something to report through the outputs, not a reason to crash."""
+    if depth > 4:
+        return repr(type(v))
+    if isinstance(v, (list, tuple)):
+        return [cache_value_view(x, depth + 1) for x in v]
+    if isinstance(v, dict):
+        return v
+    parts = [type(v).__name__]
+    for attr in ("code2cid", "cid2unichr", "attrs"):
+        if hasattr(v, attr):
+            try:
+                parts.append((attr, dict(getattr(v, attr))))
+            except Exception:  # noqa: BLE001
+                parts.append((attr, repr(type(getattr(v, attr)))))
+    return parts
+
+
+def table_mark(table: Dict[Any, Any]) -> Tuple[int, Any, Any, Any]:
+    """(size, first key, last key, the dict): enough to tell growth from loss without copying a table
+    that may hold 10^5 names (dicts keep insertion order; entries are never deleted one by one)"""
+    n = len(table)
+    first = next(iter(table)) if n else None
+    last = next(reversed(table)) if n else None
+    return (n, first, last, table)
+
+
+def table_new_keys(before, after) -> Optional[List[Any]]:
+    """keys added between two marks of the same table; None when entries were lost"""
+    import itertools
+    n0, first0, last0, t0 = before
+    n1, first1, _last1, t1 = after
+    if t0 is not t1 or n1 < n0 or (n0 and first1 != first0):
+        return None
+    if n0 and next(itertools.islice(t1, n0 - 1, None), None) != last0:
+        return None
+    return list(itertools.islice(t1, n0, None))
+
+
+_INTERN_SEEN: Dict[str, Tuple[int, int]] = {}
+
+
+def _intern_ok(table: Dict[Any, Any], which: str) -> bool:
+    """every entry's name is its key; entries already checked (dicts keep insertion order) are skipped
+    unless the table was replaced or shrank"""
+    import itertools
+    ident, done = _INTERN_SEEN.get(which, (0, 0))
+    if ident != id(table) or done > len(table):
+        done = 0
+    ok = all(v.name == k for k, v in itertools.islice(table.items(), done, None))
+    _INTERN_SEEN[which] = (id(table), len(table))
+    return ok
+
+
 def snapshot() -> Dict[str, Any]:
     from pdfminer import settings
     from pdfminer.cmapdb import CMapDB
@@ -385,17 +446,30 @@ def snapshot() -> Dict[str, Any]:
                                 for k, v in EncodingDB.encodings.items()))
     s["encsum"] = [sum((k * 65537 + ord(v)) * (k + 7) for k, v in getattr(EncodingDB, n).items()) % 2305843009213693951
                    for n in tabs]
-    s["cmaps"] = {k: _p((v.code2cid, dict(v.attrs))) for k, v in CMapDB._cmap_cache.items()}
-    s["umaps"] = {k: _p([(u.cid2unichr, dict(u.attrs)) for u in v]) for k, v in CMapDB._umap_cache.items()}
-    s["lits"] = set(PSLiteralTable.dict)
-    s["kws"] = set(PSKeywordTable.dict)
-    s["intern_ok"] = all(v.name == k for k, v in PSLiteralTable.dict.items()) and \
-        all(v.name == k for k, v in PSKeywordTable.dict.items())
+    s["cmaps"] = {k: _p(cache_value_view(v)) for k, v in CMapDB._cmap_cache.items()}
+    s["umaps"] = {k: _p(cache_value_view(v)) for k, v in CMapDB._umap_cache.items()}
+    s["lits"] = table_mark(PSLiteralTable.dict)
+    s["kws"] = table_mark(PSKeywordTable.dict)
+    s["intern_ok"] = _intern_ok(PSLiteralTable.dict, "lit") and _intern_ok(PSKeywordTable.dict, "kw")
     s["strict"] = settings.STRICT
     s["metrics"] = _p(FONT_METRICS)
     s["colorspaces"] = _h([(k, v.name, v.ncomponents) for k, v in PREDEFINED_COLORSPACE.items()])
     s["glyphs"] = len(glyphname2unicode)
     return s
+
+
+INTROSPECTION_ERRORS: List[str] = []
+
+
+def safe_snapshot() -> Optional[Dict[str, Any]]:
+    """The harness looks at internals (cache dictionaries, tables).  If their layout changed so much
+    that they cannot be read, that is a broken tie to report (ctx.disagree), never a crash."""
+    try:
+        return snapshot()
+    except Exception as e:  # noqa: BLE001
+        import traceback
+        INTROSPECTION_ERRORS.append("snapshot: " + traceback.format_exc()[-400:])
+        return None
 
 
 def cmap_exists(name: str) -> bool:
@@ -436,12 +510,12 @@ def allowed_growth(doc: Optional[P.Doc], before: Dict[str, Any], after: Dict[str
         return ("cmap cache gained a key the document does not name", sorted(ok_c), sorted(new_c))
     if not new_u <= ok_u:
         return ("unicode-map cache gained a key the document does not name", sorted(ok_u), sorted(new_u))
-    new_l = after["lits"] - before["lits"]
+    new_l = table_new_keys(before["lits"], after["lits"])
+    if new_l is None or table_new_keys(before["kws"], after["kws"]) is None:
+        return ("interned table lost entries (it was emptied or replaced)", before["lits"][:2], after["lits"][:2])
     bad = [k for k in new_l if (k if isinstance(k, str) else k.decode("latin-1")) not in names]
     if bad:
         return ("literal table gained a name that does not occur in the document", sorted(names)[:20], sorted(map(repr, bad)))
-    if not before["lits"] <= after["lits"] or not before["kws"] <= after["kws"]:
-        return ("interned table lost an entry", None, None)
     return None
 
 
@@ -460,14 +534,15 @@ def is_exc(x) -> bool:
     return isinstance(x, dict) and set(x) == {"exc"}
 
 
-def baseline_job(data: bytes, pw: str, las: List[str], reverse: bool = False) -> Dict[str, Any]:
+def baseline_job(data: bytes, pw: str, las: List[str], reverse: bool = False, light: bool = False) -> Dict[str, Any]:
     res: Dict[str, Any] = {}
     order = list(las)
     if reverse:
         order.reverse()
     for la in order:
         r: Dict[str, Any] = {}
-        steps = ["pages", "text", "singles", "tofp"]
+        # light (bulk documents): extract_pages only - all pages once, then page by page
+        steps = ["pages", "singles"] if light else ["pages", "text", "singles", "tofp"]
         if reverse:
             steps.reverse()
         for st in steps:
@@ -476,13 +551,18 @@ def baseline_job(data: bytes, pw: str, las: List[str], reverse: bool = False) ->
             elif st == "text":
                 r["text"] = _try(lambda: impl_text(data, pw, None, True, la))
             elif st == "singles":
-                n = _try(lambda: len(list(impl_pages_iter(data, pw, None, False, la))))
+                if light and isinstance(r.get("pages"), list):
+                    n = len(r["pages"])
+                else:
+                    n = _try(lambda: len(list(impl_pages_iter(data, pw, None, False, la))))
                 if is_exc(n):
                     # count the pages without interpreting them
                     from pdfminer.pdfpage import PDFPage
                     n = _try(lambda: len(list(PDFPage.get_pages(io.BytesIO(data), password=pw))))
                 r["npages"] = n
-                r["singles"] = n if is_exc(n) else [_try(lambda k=k: impl_text(data, pw, [k], True, la)) for k in range(n)]
+                if not light:
+                    r["singles"] = n if is_exc(n) else [_try(lambda k=k: impl_text(data, pw, [k], True, la))
+                                                        for k in range(n)]
                 r["single_pages"] = n if is_exc(n) else [
                     _try(lambda k=k: [canon_page(p) for p in impl_pages_iter(data, pw, [k], True, la)]) for k in range(n)]
             else:
@@ -494,11 +574,11 @@ def baseline_job(data: bytes, pw: str, las: List[str], reverse: bool = False) ->
 
 def worker_main() -> None:
     job = json.load(sys.stdin)
-    out = baseline_job(bytes.fromhex(job["doc"]), job["pw"], job["las"], job.get("reverse", False))
+    out = baseline_job(bytes.fromhex(job["doc"]), job["pw"], job["las"], job.get("reverse", False), job.get("light", False))
     json.dump(out, sys.stdout)
 
 
-def spawn_worker(data: bytes, pw: str, las: List[str], reverse: bool = False) -> subprocess.Popen:
+def spawn_worker(data: bytes, pw: str, las: List[str], reverse: bool = False, light: bool = False) -> subprocess.Popen:
     code = ("import sys; sys.path.insert(0, %r); from harness.props import c12; c12.worker_main()" % C.TOOLS)
     env = dict(os.environ)
     env["VERIF_REPO"] = C.REPO
@@ -506,7 +586,7 @@ def spawn_worker(data: bytes, pw: str, las: List[str], reverse: bool = False) ->
     p = subprocess.Popen([sys.executable, "-c", code], stdin=subprocess.PIPE, stdout=subprocess.PIPE,
                          stderr=subprocess.PIPE, env=env)
     assert p.stdin is not None
-    p.stdin.write(json.dumps({"doc": data.hex(), "pw": pw, "las": las, "reverse": reverse}).encode())
+    p.stdin.write(json.dumps({"doc": data.hex(), "pw": pw, "las": las, "reverse": reverse, "light": light}).encode())
     p.stdin.close()
     return p
 
@@ -530,7 +610,7 @@ def baselines(docs: List[P.Doc], las_per_doc: List[List[str]], reverse: bool = F
     i = 0
     while i < len(docs):
         batch = list(range(i, min(i + par, len(docs))))
-        procs = [(j, spawn_worker(docs[j].data, docs[j].user, las_per_doc[j], reverse)) for j in batch]
+        procs = [(j, spawn_worker(docs[j].data, docs[j].user, las_per_doc[j], reverse, docs[j].bulk)) for j in batch]
         for j, p in procs:
             res[j] = collect_worker(p)
         i += par
@@ -635,7 +715,7 @@ class Exec:
         """Returns the observed state effects (compared with the model's reply)."""
         kind = op[0]
         docs = self.docs
-        before = snapshot()
+        before = safe_snapshot()
         doc: Optional[P.Doc] = None
         extra: Tuple[str, ...] = ()
         obs = None
@@ -695,11 +775,14 @@ class Exec:
                     hk, di, o, hd, pos, _dead = ent
                     doc = docs[di]
                     b = self.base[di][o["la"]]
-                    ks = sel_pages(doc.npages, o["pages"])
+                    sp = b["single_pages"]
+                    # page count as the fresh process saw it (it is compared with the generator's in
+                    # check_baseline_self; a baseline that lost pages must not crash the harness)
+                    ks = sel_pages(doc.npages if is_exc(sp) else len(sp), o["pages"])
                     exp = None
                     if pos < len(ks):
-                        sp = b["single_pages"]
-                        exp = sp if is_exc(sp) else sp[ks[pos]] if is_exc(sp[ks[pos]]) else sp[ks[pos]][0]
+                        one = sp if is_exc(sp) else sp[ks[pos]]
+                        exp = one if is_exc(one) else (one[0] if one else None)
                     ent[4] = pos + 1
                     tags["interleaved"] = True
                     if hk == "ll":
@@ -722,7 +805,12 @@ class Exec:
                     doc = docs[di]
                     if hk == "ll":
                         if not dead:
-                            bad = check_cache_inv(hd)
+                            try:
+                                bad = check_cache_inv(hd)
+                            except Exception:  # noqa: BLE001
+                                import traceback
+                                INTROSPECTION_ERRORS.append("cache_inv: " + traceback.format_exc()[-400:])
+                                bad = None
                             if bad is not None:
                                 self.fail(idx, "cache_inv: " + bad[0], bad[2], bad[3], dict(tags, objid=bad[1]))
                     else:
@@ -740,7 +828,9 @@ class Exec:
                           "a result" if not is_exc(exp) else exp,
                           traceback.format_exc()[-600:], dict(tags, exception=type(e).__name__))
             obs = glyphs = None
-        after = snapshot()
+        after = safe_snapshot()
+        if before is None or after is None:
+            return {"caches": None, "glyphs": None, "unreadable": True}
         bad2 = allowed_growth(doc, before, after, extra)
         if bad2 is not None:
             self.fail(idx, "tables_inv: " + bad2[0], repr(bad2[1])[:300], repr(bad2[2])[:300], dict(tags, tables=True))
@@ -748,7 +838,16 @@ class Exec:
                 "cm0": sorted(before["cmaps"]), "um0": sorted(before["umaps"]), "enc": after["encsum"]}
 
     @staticmethod
-    def ll_state(hd: LLHandle) -> str:
+    def ll_state(hd: LLHandle) -> Optional[str]:
+        try:
+            return Exec._ll_state(hd)
+        except Exception:  # noqa: BLE001
+            import traceback
+            INTROSPECTION_ERRORS.append("iterator state: " + traceback.format_exc()[-400:])
+            return None
+
+    @staticmethod
+    def _ll_state(hd: LLHandle) -> str:
         st = hd.state()
         ip = hd.interp
         left = "-"
@@ -801,7 +900,12 @@ class Exec:
 
 def make_pool(seed: str, size: int) -> List[P.Doc]:
     rng = random.Random(seed)
-    docs = P.gen_pool(rng, size)
+    if "/bulk/" in seed:
+        # a small ordinary pool plus, as LAST document, one that makes the process-wide tables grow a lot
+        docs = P.gen_pool(rng, size - 1)
+        docs.append(P.gen_bulk_doc(rng, size - 1))
+    else:
+        docs = P.gen_pool(rng, size)
     for d in docs:
         d.all_fonts = [fd for pf in d.page_fonts for _, _, fd in pf]       # type: ignore[attr-defined]
     return docs
@@ -809,7 +913,7 @@ def make_pool(seed: str, size: int) -> List[P.Doc]:
 
 def pool_las(seed: str, docs: List[P.Doc]) -> List[List[str]]:
     rng = random.Random(seed + "/la")
-    return [["default", rng.choice(LA_NAMES[1:])] for _ in docs]
+    return [["default"] if d.bulk else ["default", rng.choice(LA_NAMES[1:])] for d in docs]
 
 
 def check_baseline_self(ctx: C.Ctx, seed: str, docs: List[P.Doc], base: List[Dict[str, Any]]) -> None:
@@ -826,8 +930,8 @@ def check_baseline_self(ctx: C.Ctx, seed: str, docs: List[P.Doc], base: List[Dic
 
             def first_exc(xs):
                 return next((x for x in xs if is_exc(x)), None)
-            want_text = first_exc(r["singles"]) or "".join(r["singles"])
-            if r["text"] != want_text:
+            want_text = None if "text" not in r else first_exc(r["singles"]) or "".join(r["singles"])
+            if "text" in r and r["text"] != want_text:
                 ctx.fail(C.Failure("extract_text page-at-a-time differs from all pages together (fresh process)",
                                    dict(inp, ops=[["text", d.idx, o]]), r["text"], want_text, {"op": "page-at-a-time"}))
             want_pages = first_exc(r["single_pages"]) or [p for sp in r["single_pages"] for p in sp]
@@ -891,6 +995,26 @@ def report_failure(ctx: C.Ctx, seed: str, size: int, docs, base, ops, ex: Exec) 
                        got if isinstance(got, (str, list, type(None))) else repr(got), tags))
 
 
+def bulk_histories(seed: str, docs: List[P.Doc], las) -> List[List[List[Any]]]:
+    """Ordinary documents before and AFTER a document that makes the process-wide tables grow a lot."""
+    rng = random.Random(seed + "/bulkhist")
+    nb = len(docs) - 1                      # the bulk document is the last one
+    o = lambda d, **kw: dict({"caching": True, "pages": None, "la": "default", "pw": d.user}, **kw)  # noqa: E731
+    ops: List[List[Any]] = []
+    for d in docs[:nb]:
+        ops.append(["text", d.idx, o(d)])
+    # through the introspectable pipeline: the object and font caches of the bulk document (hundreds of
+    # entries) are compared with the model after the page and with fresh computations at close
+    ops += [["open", 9, "ll", nb, o(docs[nb])], ["next", 9], ["close", 9]]
+    for d in docs[:nb]:
+        ops.append(["pages", d.idx, o(d, la=las[d.idx][-1])])
+        ops.append(["text", d.idx, o(d, caching=False)])
+    ops.append(["single", nb, o(docs[nb]), 1])
+    ops += [["open", 1, "ll", 0, o(docs[0])], ["next", 1], ["next", 1], ["close", 1]]
+    ops.append(["pages", docs[1 % nb].idx, o(docs[1 % nb])])
+    return [ops, gen_history(rng, docs[:nb], las[:nb], 10)]
+
+
 def run_pool(ctx: C.Ctx, seed: str, size: int, nhist: int, hist_len: int) -> None:
     docs = make_pool(seed, size)
     las = pool_las(seed, docs)
@@ -917,11 +1041,14 @@ def run_pool(ctx: C.Ctx, seed: str, size: int, nhist: int, hist_len: int) -> Non
         for b in docs:
             if a is not b:
                 pair_ops.append(["text", a.idx, {"caching": True, "pages": None, "la": "default", "pw": a.user}])
-                pair_ops.append(["pages", b.idx, {"caching": rng.random() < 0.5, "pages": None, "la": las[b.idx][1],
+                pair_ops.append(["pages", b.idx, {"caching": rng.random() < 0.5, "pages": None, "la": las[b.idx][-1],
                                                   "pw": b.user}])
-    histories = [pair_ops]
+    histories: List[Any] = [pair_ops]
     for hno in range(nhist):
         histories.append(None)
+    if "/bulk/" in seed:
+        histories = bulk_histories(seed, docs, las)
+        ctx.branch("history:after-bulk-document")
     for hno, ops in enumerate(histories):
         if not ctx.time_left():
             ctx.notes.append("time budget reached; stopped generating histories")
@@ -950,7 +1077,8 @@ class NameIds:
 
 
 def fontspec_tokens(fd: P.FontDesc, cm: NameIds, um: NameIds, gidx: Dict[str, int]) -> List[int]:
-    t: List[int] = [KIND[fd.kind], fd.base, len(fd.diffs)]
+    kind = 3 if (fd.kind == "cid-predef" and fd.identity) else KIND[fd.kind]
+    t: List[int] = [kind, int(fd.vertical), fd.base, len(fd.diffs)]
     for code, g in fd.diffs:
         t += [code, gidx.get(g, 99999)]
     t += [1 if "ToUnicode" in fd.obj else 0, len(fd.tounicode)]
@@ -962,7 +1090,7 @@ def fontspec_tokens(fd: P.FontDesc, cm: NameIds, um: NameIds, gidx: Dict[str, in
 
 def show_codes(fd: P.FontDesc, s: bytes, cm: NameIds) -> List[int]:
     if fd.kind == "cid-predef":
-        return [cm.get(fd.cmap)]          # synthetic CMap content on the model side: one code that it maps
+        return [cm.get(fd.cmap) if fd.cmap else 1]          # synthetic CMap content on the model side: one code that it maps
     if fd.kind == "cid-identity":
         return [s[i] * 256 + s[i + 1] for i in range(0, len(s) - 1, 2)]
     return list(s)
@@ -1051,7 +1179,9 @@ def model_check(ctx: C.Ctx, seed: str, docs, ops, ex) -> None:
     """Correspondence: the compiled Lean model runs the same history on the abstract documents;
     cache key sets, shared-table key sets, encoding-table checksums and decoded glyph text must
     agree with what the implementation showed after every operation."""
-    if ctx.driver is None or ex is None or not ex.observed:
+    while INTROSPECTION_ERRORS:
+        ctx.disagree("c12.introspection", {"pool": seed, "size": len(docs)}, INTROSPECTION_ERRORS.pop(0), "readable state")
+    if ctx.driver is None or ex is None or not ex.observed or any(o.get("unreadable") for o in ex.observed):
         return
     first = ex.observed[0]
     head, op_lines, cm, um = model_lines(docs, ops, first["cm0"], first["um0"])
@@ -1128,7 +1258,7 @@ def replay(ctx: C.Ctx, doc, from_corpus: bool = False) -> None:
     used = sorted({op[1] for op in ops if op[0] in ("text", "pages", "tofp", "single")} |
                   {op[3] for op in ops if op[0] == "open"})
     base: List[Any] = [None] * len(docs)
-    sub = baselines([docs[i] for i in used], [LA_NAMES for _ in used])
+    sub = baselines([docs[i] for i in used], [["default"] if docs[i].bulk else LA_NAMES for i in used])
     for i, b in zip(used, sub):
         base[i] = b
     ctx.branch("corpus" if from_corpus else "replay")
@@ -1155,13 +1285,17 @@ def run(ctx: C.Ctx) -> None:
     warm_imports()
     if ctx.tier == "quick":
         # own, tighter budget than the framework's 150 s: the normal pass needs ~25 s of harness time;
-        # the failing-input search (boost 4) is cut off after 55 s so that even a run with a broken tie
+        # the failing-input search (boost 4) is cut off after 45 s so that even a run with a broken tie
         # stays around 90 s on an idle machine
-        ctx.deadline = min(ctx.deadline, time.time() + 55.0)
+        ctx.deadline = min(ctx.deadline, time.time() + 45.0)
     run_corpus(ctx)
     npools = ctx.n(2, 12)
     for pno in range(npools):
         if not ctx.time_left():
             break
+        if pno == 1:
+            # between the pools: a document that makes the process-wide tables grow by 70 000 names and
+            # keywords; every later pool runs in a process that has seen it
+            run_pool(ctx, f"C12/bulk/{ctx.seed}/{ctx.boost}", 4, 0, 0)
         seed = f"C12/{ctx.seed}/{ctx.boost}/{pno}"
         run_pool(ctx, seed, ctx.rng.choice([6, 7, 8]), 10 if ctx.tier == "quick" else 40, ctx.rng.choice([14, 20, 26]))
